@@ -373,6 +373,25 @@ func (r *Result) evalStruct(v ssa.Value, st pstate, depth int) Abs {
 		return acc
 	case *ssa.UnOp:
 		switch x.Op {
+		case token.MUL:
+			// load of a non-escaping local (e.g. the result slot go/ssa spills
+			// returns into when the function has defers): the value stored
+			// last in the same block
+			if al, ok := x.X.(*ssa.Alloc); ok && !allocEscapes(al) {
+				var last ssa.Value
+				for _, in := range x.Block().Instrs {
+					if in == ssa.Instruction(x) {
+						break
+					}
+					if st, isSt := in.(*ssa.Store); isSt && st.Addr == ssa.Value(al) {
+						last = st.Val
+					}
+				}
+				if last != nil {
+					return r.eval(last, st, depth+1)
+				}
+			}
+			return AUnknown
 		case token.NOT:
 			if b, ok := r.eval(x.X, st, depth+1).IsBool(); ok {
 				if b {
@@ -777,3 +796,23 @@ func Origin(v ssa.Value) ssa.Value {
 	return v
 }
 
+
+// allocEscapes: the allocation's address is used for anything but direct
+// loads and stores (so something else may write it).
+func allocEscapes(al *ssa.Alloc) bool {
+	if al.Referrers() == nil {
+		return false
+	}
+	for _, r := range *al.Referrers() {
+		switch x := r.(type) {
+		case *ssa.Store:
+			if x.Val == ssa.Value(al) {
+				return true
+			}
+		case *ssa.UnOp, *ssa.DebugRef:
+		default:
+			return true
+		}
+	}
+	return false
+}
